@@ -23,6 +23,7 @@ import QV.Proofs.WriterRefine
 import QV.Proofs.WriterHeader
 import QV.Proofs.WriterShapeRun
 import QV.Proofs.WriterContentDecode
+import QV.Proofs.WriterMsgRefine
 
 namespace QV.C12
 open QV QV.Writer QV.ServerSafety
@@ -254,8 +255,8 @@ theorem C12_component_table_is_rfc_layout (cls ty : Nat) :
     RDLENGTH that is the number of octets written after it.
   * **Content, all records of a session** (`C12_records_are_the_calls_all_modes`, below): the decoded
     questions and records are, section by section and in order, those of the calls that succeeded.
-  Not proved for these two modes: that the RDATA reads back (C13 proves each name in it is written
-  validly and `C13_written_name_round_trip` that each reads back on its own). -/
+  * **RDATA** (`C12_rdata_round_trip_all_modes`, below): the RDATA of a record reads back field by
+    field, the names inside it decompressed to the names given. -/
 
 theorem C12_finished_message_decodes_all_modes (macFn : Tsig → List UInt8 → List UInt8) (hmac : MacLenOK macFn)
     (buf : Bytes) (limit : Nat) (s0 : State) (hnew : Writer.new buf limit = .ok s0) (mode : CMode)
@@ -330,5 +331,27 @@ theorem C12_records_are_the_calls_all_modes (macFn : Tsig → List UInt8 → Lis
   have hL := clay_run { w := { s0 with mode := mode } } ops {} hI0 hL0 hr
   obtain ⟨m, mac, hf⟩ := finish_ok macFn hmac out.1.w hI
   exact ⟨m, mac, hf, fun hsz => finish_decodes_content macFn out.1.w given hI hL m mac hf hsz⟩
+
+
+/-! ### the RDATA of a record reads back, names inside it decompressed (every mode)
+
+  After a successful `add_rr` (message of at most 65535 octets so far): the record starts at the old
+  cursor with an owner of `k` octets, RDLENGTH holds the number `len` of octets after it, and the
+  specification's decoder (`QV.Spec.Message.decodeRdata`: expand the RDATA along the RFC layout of
+  the type, decompressing the names RFC 3597 §4 allows to be compressed) reads exactly the fields
+  of the RDATA given (`givenRdata`, the specification's own reading of the caller's octets):
+  `FieldMatch` — octet fields equal, names equal up to ASCII case, octet for octet unless the mode
+  is `Standard`. The whole-message statements carry this for every record (`RdAt` inside the
+  layout invariant `CLay`). -/
+theorem C12_rdata_round_trip_all_modes (hint : Hint) (owner : WName) (ty cls ttl : Nat) (rd : List UInt8)
+    (s s' : State) (hw : WInv s) (hl : PtrLogOK s) (hwf : owner.WF) (hh : Writer.HintOK s hint owner)
+    (h : addRr hint owner ty cls ttl rd s = (.ok (), s')) (hle : s'.cursor ≤ 65535) (item : Nat) :
+    ∃ k len gf df ns, s.cursor + k + 10 + len = s'.cursor ∧
+      (∃ w n, Spec.specDecodeName (s'.octets.extract 0 s'.cursor) s.cursor = some (w, n, k)) ∧
+      be16 s'.octets (s.cursor + k + 8) = len ∧
+      Spec.Message.givenRdata ty cls rd = some gf ∧
+      Spec.Message.decodeRdata (s'.octets.extract 0 s'.cursor) item ty cls (s.cursor + k + 10) len = some (df, ns) ∧
+      All2 (FieldMatch (s.mode ≠ .standard)) gf df :=
+  addRr_rdata_round_trip hint owner ty cls ttl rd s s' hw hl hwf hh h hle item
 
 end QV.C12
